@@ -38,7 +38,7 @@ def _closure(c):
 def write_random(m, seed, style=None):
     """
     style flags (dict): bracket_all (every atom as bracket atom with explicit H count), explicit_single ('-' written),
-    charge_style (0: +2, 1: ++), big_closures (start numbering at 10), mapping (write :n), aromatic (lower-case atoms
+    charge_style (0: +2, 1: ++), big_closures (start numbering at 10), mapping (True: write :n for every atom; dict atom -> map: write those), aromatic (lower-case atoms
     for order-4 bonded atoms; requires thiele form and writes no H for organic aromatic atoms).
     Returns (text, order) or None when the labels cannot be expressed (odd conjugated cycle).
     """
@@ -175,7 +175,7 @@ def write_random(m, seed, style=None):
         arom = n in aromatic_atoms
         name = sym.lower() if arom else sym
         needs_bracket = (st['bracket_all'] or sym not in ORGANIC or a.isotope or a.charge or chir or a.is_radical
-                         or st['mapping'] or h is None)
+                         or st['mapping'] is True or (st['mapping'] and n in st['mapping']) or h is None)
         if not needs_bracket:
             if arom:
                 # bare aromatic atom: reader derives H; only safe for carbon (c) and for hetero atoms without H
@@ -207,8 +207,10 @@ def write_random(m, seed, style=None):
                 t += ('+' if c > 0 else '-') * abs(c)
             else:
                 t += CHARGE[c]
-        if st['mapping']:
+        if st['mapping'] is True:
             t += f':{n}'
+        elif st['mapping'] and n in st['mapping']:
+            t += f':{st["mapping"][n]}'
         return t + ']'
 
     written_nbrs = {}
